@@ -102,6 +102,9 @@ func verifyFuncMode(P *Program, name string, refute bool) (rep *FuncReport) {
 		rep.GenMS = time.Since(start).Milliseconds()
 		ax := m.globalAxioms()
 		for _, o := range rep.Obls {
+			if o.ctx != m.ctx {
+				continue // from a reject pass: carries its own axioms
+			}
 			o.PC = append(o.PC, ax...)
 		}
 		if fc != nil {
@@ -115,6 +118,38 @@ func verifyFuncMode(P *Program, name string, refute bool) (rep *FuncReport) {
 		}
 	}()
 	m.Verify()
+	if fc != nil && !refute {
+		// reject passes: one per clause, the clause replaces the preconditions
+		for _, rc := range fc.Rejects {
+			if onlyProperty != "" && !hasTag(rc.Tags, onlyProperty) && !hasTag(fc.Props, onlyProperty) {
+				continue
+			}
+			m2 := newMachine(P, fn, fc)
+			m2.onlyProp = onlyProperty
+			m2.reject = rc
+			m2.Verify()
+			tags := rc.Tags
+			if len(tags) == 0 {
+				tags = fc.Props
+			}
+			ax2 := m2.globalAxioms()
+			for _, o := range m2.obls {
+				o.PC = append(o.PC, ax2...)
+				switch {
+				case o.Kind == "reject":
+					o.Tags = tags
+					m.obls = append(m.obls, o)
+				case strings.HasSuffix(o.Name, "#cover.requires"):
+					o.Name = relName(fn) + "#cover.reject." + rc.Label
+					o.Desc = "the rejected inputs exist (vacuity check)"
+					o.Tags = tags
+					m.obls = append(m.obls, o)
+				}
+			}
+			m.problems = append(m.problems, m2.problems...)
+			m.paths += m2.paths
+		}
+	}
 	return
 }
 
